@@ -100,3 +100,20 @@ pub fn condcase(c: &J) -> J {
     }
     out
 }
+
+/// C10: {"id","calls":[insert ops]} applied one at a time on Query::insert().into_table(t);
+/// per step: the call's Result (or panic), whether the statement still equals the clone
+/// taken before the call, and the three inline renderings (or panic).
+pub fn inscase(c: &J) -> J {
+    let calls = c["calls"].as_array().unwrap();
+    let mut s = Query::insert();
+    s.into_table(expr::a("t"));
+    let mut steps: Vec<J> = vec![];
+    for (i, call) in calls.iter().enumerate() {
+        let before = s.clone();
+        let res = guarded(|| stmt::apply_insert(&mut s, call));
+        let unchanged = s == before;
+        steps.push(json!({"step": i + 1, "res": res, "unchanged": unchanged, "obs": inline_only(&s)}));
+    }
+    json!({"id": c["id"], "calls": c["calls"], "steps": steps})
+}
